@@ -818,3 +818,147 @@ theorem stepH_refines (grow : Nat → Nat → Nat) (h : Heap) (hi : Inv h) (p : 
       exact ⟨hi, trivial⟩
 
 end Req.Heap
+
+namespace Req.Heap
+open Req.Scope
+
+/-! ### Lists of primitives, API programs -/
+
+theorem runH_refines (grow : Nat → Nat → Nat) : ∀ (ps : List Prim) (h : Heap), Inv h → (∀ p ∈ ps, PrimSafe p) →
+    Inv (runH grow h ps) ∧ abs (runH grow h ps) = runV (abs h) ps := by
+  intro ps
+  induction ps with
+  | nil => intro h hi _; exact ⟨hi, rfl⟩
+  | cons p ps ih =>
+    intro h hi hs
+    have h1 := stepH_refines grow h hi p (hs p (by simp))
+    have h2 := ih (stepH grow h p) h1.1 (fun q hq => hs q (by simp [hq]))
+    simp only [runH, runV, List.foldl_cons] at h2 ⊢
+    rw [← h1.2]
+    exact h2
+
+def isDerive : Prim → Bool
+  | .derive _ _ _ => true
+  | _ => false
+
+theorem primSafe_of_not_derive (p : Prim) (h : isDerive p = false) : PrimSafe p := by
+  cases p <;> first | trivial | (simp [isDerive] at h)
+
+theorem setter_no_derive (o : Nat) (s : Setter) : (s.prims o).all (fun p => !isDerive p) = true := by
+  cases s <;> simp [Setter.prims, isDerive]
+  all_goals (repeat' split) <;> simp [isDerive]
+
+end Req.Heap
+
+namespace Req.Heap
+open Req.Scope
+
+theorem compile_safe (tc tr : Table) (hc : AliasSafe tc) (hr : AliasSafe tr) (n : Nat) (op : Op) :
+    ∀ p ∈ compile tc tr n op, PrimSafe p := by
+  intro p hp
+  cases op with
+  | newClient =>
+    simp [compile] at hp
+    rcases hp with rfl | rfl <;> trivial
+  | clone i =>
+    simp only [compile] at hp
+    split at hp
+    · simp at hp
+      rcases hp with rfl | rfl | rfl | rfl
+      · exact hc
+      all_goals trivial
+    · simp at hp
+  | newReq i =>
+    simp only [compile] at hp
+    split at hp
+    · simp at hp
+      rcases hp with rfl | rfl | rfl | rfl | rfl
+      · exact hr
+      all_goals trivial
+    · simp at hp
+  | set o s =>
+    simp only [compile] at hp
+    have := setter_no_derive o s
+    rw [List.all_eq_true] at this
+    exact primSafe_of_not_derive p (by simpa using this p hp)
+  | exec r m md path sc =>
+    simp only [compile] at hp
+    split at hp
+    · simp at hp
+    · simp at hp; subst hp; trivial
+  | getCookies c => simp [compile] at hp
+  | probe o => simp [compile] at hp
+
+theorem runHeapFrom_refines (grow : Nat → Nat → Nat) (tc tr : Table) (hc : AliasSafe tc) (hr : AliasSafe tr) :
+    ∀ (ops : List Op) (h : Heap), Inv h →
+      Inv (runHeapFrom grow tc tr h ops).1 ∧
+      abs (runHeapFrom grow tc tr h ops).1 = (runWith tc tr (abs h) ops).1 ∧
+      (runHeapFrom grow tc tr h ops).2 = (runWith tc tr (abs h) ops).2 := by
+  intro ops
+  induction ops with
+  | nil => intro h hi; exact ⟨hi, rfl, rfl⟩
+  | cons op ops ih =>
+    intro h hi
+    simp only [runHeapFrom, runWith, stepOp]
+    have hcount : (abs h).count = h.count := rfl
+    by_cases he : observe (abs h) op = .err
+    · simp only [he, if_true]
+      have := ih h hi
+      exact ⟨this.1, this.2.1, by rw [this.2.2]⟩
+    · simp only [he, if_false]
+      have h1 := runH_refines grow (compile tc tr h.count op) h hi (compile_safe tc tr hc hr h.count op)
+      have := ih (runH grow h (compile tc tr h.count op)) h1.1
+      rw [h1.2] at this
+      rw [hcount]
+      exact ⟨this.1, this.2.1, by rw [this.2.2]⟩
+
+/-! ### Only what a table carries matters on values -/
+
+theorem deriveVal_congr (t t' : Table) (hcl : ∀ f, t f = .absent ↔ t' f = .absent) (w : VOwner) :
+    deriveVal t w = deriveVal t' w := by
+  funext f
+  unfold deriveVal
+  have := hcl f
+  cases ht : t f <;> cases ht' : t' f <;> simp [ht, ht'] at this ⊢
+
+theorem stepV_derive_congr (t t' : Table) (hcl : ∀ f, t f = .absent ↔ t' f = .absent) (s : VState) (src : Nat) (req : Bool) :
+    stepV s (.derive src t req) = stepV s (.derive src t' req) := by
+  simp only [stepV]
+  split
+  · congr 1
+    funext i
+    split
+    · rw [deriveVal_congr t t' hcl]
+    · rfl
+  · rfl
+
+theorem compile_congr (tc tr tc' tr' : Table) (hc : ∀ f, tc f = .absent ↔ tc' f = .absent)
+    (hr : ∀ f, tr f = .absent ↔ tr' f = .absent) (s : VState) (n : Nat) (op : Op) :
+    runV s (compile tc tr n op) = runV s (compile tc' tr' n op) := by
+  cases op with
+  | clone i =>
+    simp only [compile]
+    split
+    · simp only [runV, List.foldl_cons]
+      rw [stepV_derive_congr tc tc' hc]
+    · rfl
+  | newReq i =>
+    simp only [compile]
+    split
+    · simp only [runV, List.foldl_cons]
+      rw [stepV_derive_congr tr tr' hr]
+    · rfl
+  | _ => rfl
+
+theorem runWith_congr (tc tr tc' tr' : Table) (hc : ∀ f, tc f = .absent ↔ tc' f = .absent)
+    (hr : ∀ f, tr f = .absent ↔ tr' f = .absent) : ∀ (ops : List Op) (s : VState),
+    runWith tc tr s ops = runWith tc' tr' s ops := by
+  intro ops
+  induction ops with
+  | nil => intro s; rfl
+  | cons op ops ih =>
+    intro s
+    simp only [runWith, stepOp]
+    rw [compile_congr tc tr tc' tr' hc hr s s.count op, ih]
+
+end Req.Heap
